@@ -163,6 +163,68 @@ def make(kind, init):
     raise ValueError(kind)
 
 
+def quantized_input(kind, spec):
+    """the quantized NoteSequence (4/4, 4 steps per quarter) an extraction spec describes"""
+    from note_seq.protobuf import music_pb2
+    q = music_pb2.NoteSequence()
+    q.quantization_info.steps_per_quarter = 4
+    q.tempos.add(qpm=120.0)
+    q.time_signatures.add(numerator=4, denominator=4)
+    last = 0
+    if kind == 'chord':
+        for fig, step in spec['chords']:
+            t = q.text_annotations.add(text=fig, quantized_step=step, time=step / 8.0)
+            t.annotation_type = music_pb2.NoteSequence.TextAnnotation.CHORD_SYMBOL
+            last = max(last, step)
+    else:
+        for pitch, a, b in spec['notes']:
+            q.notes.add(pitch=pitch, velocity=90, quantized_start_step=a, quantized_end_step=b, start_time=a / 8.0,
+                        end_time=b / 8.0, is_drum=(kind == 'drum'), instrument=9 if kind == 'drum' else 0)
+            last = max(last, b)
+    q.total_quantized_steps = last
+    q.total_time = last / 8.0
+    return q
+
+
+def extract_into(kind, obj, spec):
+    """re-populate a real object with its class's from_quantized_sequence"""
+    q = quantized_input(kind, spec)
+    if kind == 'melody':
+        obj.from_quantized_sequence(q, search_start_step=spec['ss'], instrument=0, gap_bars=spec['gap'],
+                                    ignore_polyphonic_notes=True, pad_end=spec['pad'], filter_drums=True)
+    elif kind == 'drum':
+        obj.from_quantized_sequence(q, search_start_step=spec['ss'], gap_bars=spec['gap'], pad_end=spec['pad'],
+                                    ignore_is_drum=False)
+    else:
+        obj.from_quantized_sequence(q, spec['ss'], spec['end'])
+
+
+def rand_fq(kind, rng):
+    """an extraction op for melody / drum / chord objects: ['fq', start, spb, spq, event codes, spec] with the first four
+    taken from a scratch extraction on a fresh object (None when that extraction raises: the generator then picks another
+    op, so every generated 'fq' is a valid operation)"""
+    ss = rng.choice([0, 0, 16, 32])
+    if kind == 'chord':
+        figs = ['C', 'G7', 'Am', 'F', 'Dm7']
+        steps = sorted(rng.sample(range(0, 64), rng.randrange(0, 5)))
+        spec = {'chords': [[rng.choice(figs), st] for st in steps], 'ss': ss, 'end': ss + rng.choice([1, 7, 16, 23, 40])}
+    else:
+        notes, t = [], ss + rng.choice([0, 0, 3, 17])
+        for _ in range(rng.randrange(1, 6)):
+            d = rng.choice([1, 1, 2, 3, 5, 9])
+            notes.append([rng.randrange(36, 84) if kind == 'melody' else rng.choice([36, 38, 42, 46]), t, t + d])
+            t += d + rng.choice([0, 0, 1, 4])
+        spec = {'notes': notes, 'ss': ss, 'gap': rng.choice([1, 2]), 'pad': rng.random() < 0.6}
+    scratch = make(kind, {'events': None, 'start': 0, 'spb': 16, 'spq': 4})
+    try:
+        extract_into(kind, scratch, spec)
+        evs = list(scratch)
+    except Exception:  # pylint: disable=broad-except
+        return None
+    code = (lambda e: int(e)) if kind == 'melody' else (lambda e: ['f', sorted(e)]) if kind == 'drum' else str
+    return ['fq', scratch.start_step, scratch.steps_per_bar, scratch.steps_per_quarter, [code(e) for e in evs], spec]
+
+
 def wire_seq_init(kind, init):
     s = '%s %d %d %d' % ('N' if init['events'] is None else 'L', init['start'], init['spb'], init['spq'])
     if init['events'] is not None:
@@ -220,7 +282,9 @@ def wire_op(kind, op):
             return 'sc %s %s' % (opt(op[1]), opt(op[2]))
         if t == 'ir':
             return 'ir %d %s' % (op[1], 'N' if op[2] is None else ev_wire(kind, op[2]))
-        if t == 'ri':
+        if t in ('ri', 'fq'):
+            # 'fq' (from_quantized_sequence) is, for the model, a re-initialisation with the events, start step and
+            # resolution a scratch extraction of the same input produced: the model derives end_step / steps / len
             return 'ri %d %d %d %s' % (op[1], op[2], op[3], wl(ev_wire(kind, e) for e in op[4]))
         return t
     if kind == 'lead':
@@ -277,6 +341,8 @@ def apply_op(kind, obj, op):
         elif t == 'ri':
             obj._from_event_list([ev_py(kind, e) for e in op[4]], start_step=op[1], steps_per_bar=op[2],
                                  steps_per_quarter=op[3])
+        elif t == 'fq':
+            extract_into(kind, obj, op[5])
         elif t == 'rs':
             obj._reset()
         else:
@@ -762,7 +828,7 @@ def transition_failures(kind, op, b, a, obj_b, obj_a, pad):
                 return 'deepcopy returned the same object or another type'
             if not same_events(kind, a.it, b.it) or (a.n, a.start, a.end, a.x1, a.x2) != (b.n, b.start, b.end, b.x1, b.x2):
                 return 'deepcopy differs from the original'
-        elif t == 'ri':
+        elif t in ('ri', 'fq'):
             want = [ev_py(kind, e) for e in op[4]]
             if not same_events(kind, a.it, want) or (a.start, a.x1, a.x2) != (op[1], op[2], op[3]):
                 return 're-initialisation did not install the given events / start / resolution'
@@ -1165,6 +1231,10 @@ def rand_op(kind, rng, n, x1=0, mx=0, heap=1, alias=False):
         if k < 0.92:
             return ['dc']
         if k < 0.97:
+            if kind in ('melody', 'drum', 'chord') and rng.random() < 0.6:
+                fq = rand_fq(kind, rng)
+                if fq is not None:
+                    return fq
             spq = rng.choice([1, 4, 12])
             evs = [rand_event(kind, rng) for _ in range(rng.randrange(0, 6))]
             if kind in ('melody', 'drum') and rng.random() < 0.2:
